@@ -284,6 +284,28 @@ pub fn run(ctx: &Ctx) -> i32 {
     // (6) Date pairs
     let db = ab::days_b();
     let nd = db.len() as u64;
+    // history independence: a pair right after a sibling pair
+    let mut dists: Vec<i128> = vec![];
+    for k in 0..=46 {
+        dists.push(1i128 << k);
+    }
+    for j in 0..=20 {
+        dists.push((1i128 << j) * ins::DAY);
+    }
+    dists.extend([1_000, 1_000_000, 999_999_999, ins::NS, 60 * ins::NS, 3_600 * ins::NS, 365 * ins::DAY, 146_097 * ins::DAY, 719_162 * ins::DAY, 730_179 * ins::DAY]);
+    let bases: Vec<i128> = [0i64, 738_276, 738_277, -366, -146_097, 2_000_000].iter().flat_map(|d| [0u64, 1, 43_200_000_000_000, 43_200_000_000_001, 5_294_967_296, 86_399_999_999_999].iter().map(move |n| ins::join(*d, *n))).collect();
+    let others: [i128; 5] = [-ins::DAY, -ins::NS, 1, 2 * ins::DAY, -2 * ins::DAY - 2_294_967_296];
+    let (nb, no, ndist) = (bases.len() as u64, others.len() as u64, dists.len() as u64);
+    rep.sweep("order and *_since of a pair right after a sibling pair: 36 instants x 5 partners x 78 distances x both signs x {a, b, both moved}", nb * no * ndist * 2 * 3, "distances: 2^k ns, 2^j days, the code's time units and calendar constants", |i, acc| {
+        let which = i % 3;
+        let sign = if i / 3 % 2 == 0 { 1 } else { -1 };
+        let delta = dists[(i / 6 % ndist) as usize] * sign;
+        let r = i / (6 * ndist);
+        let a = bases[(r / no) as usize];
+        let b = a + others[(r % no) as usize];
+        let (da, db) = match which { 0 => (delta, 0), 1 => (0, delta), _ => (delta, delta) };
+        case_pair_after_sibling(a, b, da, db, acc);
+    });
     rep.sweep("order:all-pairs(DAYS_B):Date", nd * nd, "Date order is day order; since signs", |i, acc| {
         case_date_pair(db[(i / nd) as usize], db[(i % nd) as usize], acc);
     });
@@ -291,7 +313,45 @@ pub fn run(ctx: &Ctx) -> i32 {
     rep.finish()
 }
 
+/// order and *_since of a pair asked right after the same questions about a sibling pair (one or both
+/// operands moved by a power of two of nanoseconds or days, or by one of the code's time units):
+/// the answer must be that of the pair alone
+fn case_pair_after_sibling(a: i128, b: i128, da: i128, db: i128, acc: &mut Acc) {
+    let (sa, sb) = (a + da, b + db);
+    if !(ins::representable(a) && ins::representable(b) && ins::representable(sa) && ins::representable(sb)) {
+        return;
+    }
+    let mk = |i: i128| {
+        let (d, n) = ins::split(i);
+        dt_from(d, n)
+    };
+    let (x, y, p, q) = match (mk(a), mk(b), mk(sa), mk(sb)) {
+        (Some(x), Some(y), Some(p), Some(q)) => (x, y, p, q),
+        _ => return,
+    };
+    acc.transitions += 2;
+    acc.states += 1;
+    let ask = |u: &DateTime, v: &DateTime| (u.cmp(v), u == v, u.days_since(v) as i128, u.hours_since(v) as i128, u.minutes_since(v) as i128, u.seconds_since(v) as i128, u.millis_since(v), u.micros_since(v), u.nanos_since(v));
+    let got = call(|| {
+        let _ = ask(&p, &q);
+        ask(&x, &y)
+    });
+    let d = a - b;
+    let t = |unit: i128| if d >= 0 { d / unit } else { -((-d) / unit) };
+    let want = (a.cmp(&b), a == b, t(86_400 * ins::NS), t(3_600 * ins::NS), t(60 * ins::NS), t(ins::NS), t(1_000_000), t(1_000), d);
+    if got == Out::Val(want) {
+        acc.branch("asked-after-a-sibling-pair");
+    } else {
+        acc.violation("DateTime order / *_since", "answer-depends-on-the-previous-call", json!({"kind": "sibling", "a": a.to_string(), "b": b.to_string(), "da": da.to_string(), "db": db.to_string()}), format!("{:?}", want), got.show());
+    }
+}
+
 pub fn replay(_op: &str, case: &Value, acc: &mut Acc) -> bool {
+    if case["kind"].as_str() == Some("sibling") {
+        let g = |k: &str| case[k].as_str().unwrap().parse::<i128>().unwrap();
+        case_pair_after_sibling(g("a"), g("b"), g("da"), g("db"), acc);
+        return true;
+    }
     let pair = |v: &Value| (v[0].as_i64().unwrap(), v[1].as_u64().unwrap());
     match case["kind"].as_str() {
         Some("ts") => case_ts(case["ts"].as_i64().unwrap(), acc),
